@@ -707,7 +707,8 @@ class Searcher(object):
         elif sortedby:
             c = collectors.SortingCollector(sortedby, limit=limit,
                                             reverse=reverse)
-        elif groupedby or reverse or not limit or limit >= self.doc_count():
+        elif (groupedby or reverse or not limit or limit >= self.doc_count()
+              or (collapse and collapse_order)):
             # A collector that gathers every matching document
             c = collectors.UnlimitedCollector(reverse=reverse, limit=limit)
         else:
